@@ -33,6 +33,7 @@ Definition wf_in (i : c21_in) : Prop :=
   match i with
   | IUrl v _ => wf_sval v
   | IQsRT ps _ _ => wf_pairs ps
+  | IQsRaw ps _ _ => wf_pairs ps
   | _ => True
   end.
 
